@@ -47,6 +47,9 @@ def plan(prop, tier, seed):
         sh += [{"kind": "prog", "n": 90 if q else 1500, "shard": i} for i in range(6 if q else 16)]
     if prop in ("C03", "C09", "C12"):
         sh += [{"kind": "asmprog", "n": 40 if q else 700, "shard": i} for i in range(3 if q else 8)]
+    if prop in ("C03", "C09"):
+        # one LONG program (thorough: hit and access counters pass 2^16) with and without the cache, in both modes
+        sh += [{"kind": "longprog", "shard": 0}]
     return sh
 
 
@@ -1191,6 +1194,13 @@ def run_shard(spec, res):
         return
     if spec["kind"] == "bfs":
         run_bfs(spec, res, prop)
+        return
+    if spec["kind"] == "longprog":
+        c = pipe.long_case(True, 2500 if spec["tier"] == "quick" else 9000)
+        case = {"kind": "prog", "prog": c["prog"], "regs": c["regs"], "mem": c["mem"], "dcache": c["dcache"], "icache": c["icache"], "max_instr": 200000}
+        guarded(run_case, prop, case, res)
+        res.evaluations += 1
+        res.count("long_programs")
         return
     for it in range(spec["n"]):
         if spec["kind"] == "hist":
